@@ -4,6 +4,7 @@ import OjgVerif.JPath.Model
 `Get.run` (frames of stack items under fragment-index markers, descent flags, reverse pushes) against
 `denV`, the value-level recursive evaluation over the same last/push selection functions. Invariant:
 `results ++ denotation of the pending frames` is constant; fuel: `Get.cost` is a proved bound. -/
+set_option linter.unusedSimpArgs false
 namespace OjgVerif.JPath
 open OjgVerif
 
